@@ -44,6 +44,7 @@ type fields struct {
 	cp     string // coefficients of the chromatic polynomial, constant term first
 	dg     int
 	ord    string // the order returned by Degeneracy (implementation detail: strict part only)
+	bk     string // the maximal cliques as sent, in order (strict part only)
 	gr, pr []string
 }
 
@@ -121,8 +122,10 @@ func observe(c gx.Case, v gx.Variant, viol *[]hx.OracleViolation) fields {
 	go graph.AllMaximalCliques(g, ch)
 	var mc [][]int
 	seen := map[string]bool{}
+	var raw []string
 	for cl := range ch {
 		cl = append([]int(nil), cl...)
+		raw = append(raw, gx.JoinInts(cl, "."))
 		s := hx.SortedCopy(cl)
 		for i := 1; i < len(s); i++ {
 			if s[i] == s[i-1] {
@@ -167,6 +170,7 @@ func observe(c gx.Case, v gx.Variant, viol *[]hx.OracleViolation) fields {
 	}
 	gx.SortLists(mc)
 	f.mc = fmt.Sprintf("%d:%s", len(mc), gx.Lists(mc))
+	f.bk = strings.Join(raw, "/")
 
 	// chromatic number with witness
 	chi, col := graph.ChromaticNumber(g)
@@ -408,7 +412,7 @@ func exec(line string) hx.Result {
 		}
 		b = append(b, fmt.Sprintf("class=%d", 1+ref.ci-maxDeg))
 	}
-	return hx.Result{Obs: first.line(c.Level) + " ## order=" + first.ord, Nontrivial: nontrivial, Buckets: b, Viol: viol}
+	return hx.Result{Obs: first.line(c.Level) + " ## order=" + first.ord + " bk=" + first.bk, Nontrivial: nontrivial, Buckets: b, Viol: viol}
 }
 
 func main() {
